@@ -8,7 +8,8 @@ OUT=${SELFTEST_OUT:-/verif/selftest/RESULTS.txt}
 cd /repo && git worktree remove --force $WT 2>/dev/null; git worktree prune; git worktree add --detach $WT HEAD >/dev/null 2>&1 || exit 2
 : > $OUT.tmp
 fail=0
-grep -v '^#' /verif/selftest/cases.txt | grep -v " ${SKIPPROP:-NONE} " | while read patch prop kind want; do
+# ONLYPROP=C14 runs the cases of one property only
+grep -v '^#' /verif/selftest/cases.txt | grep -v " ${SKIPPROP:-NONE} " | grep " ${ONLYPROP:-C[0-9][0-9]} " | while read patch prop kind want; do
   [ -z "$patch" ] && continue
   git -C $WT checkout -q -- .
   if ! git -C $WT apply /verif/selftest/$patch; then echo "$patch $prop APPLY-FAILED" | tee -a $OUT.tmp; continue; fi
